@@ -15,7 +15,8 @@ MUTATIONS = {
     "c02-gap-minmax": (["C02"], L, "            gap_start = min(block1.end, block2.end)", "            gap_start = min(block1.start, block2.end)"),
     "c02-revert-f11": (["C02"], L, "                    curr_end = max(curr_end, next_end)", "                    curr_end = next_end"),
     "c02-revert-f13": (["C02"], L, "        if optimized.is_empty:\n            # all blocks", "        if False:\n            # all blocks"),
-    "c02-shift-no-bounds": (["C02"], L, "        # force evaluation of _single_intervals to do bounds checks\n        _ = r._single_intervals\n", ""),
+    # removed as equivalent on the current tree: "c02-shift-no-bounds" (dropping the forced _single_intervals evaluation in shift_position) -
+    # since the repairs F21 / F33 the CompoundInterval constructor itself refuses a negative start and an end beyond the parent sequence
     "c02-full-span-compound": (["C02"], L, "        if full_span:\n            return self._full_span_interval.has_overlap(other, match_strand, full_span=True)", "        if full_span:\n            return self._full_span_interval.has_overlap(other, match_strand, full_span=False)"),
     "c02-union-preserve-strand": (["C02"], L, "    if loc1.strand != loc2.strand:\n        raise InvalidStrandException", "    if False:\n        raise InvalidStrandException"),
     "c02-empty-union-branch": (["C02"], L, "        if len(other) == 0:\n            return SingleInterval(self.start, self.end, self.strand, new_parent)", "        if len(other) == 0:\n            return SingleInterval(other.start, other.end, self.strand, new_parent)"),
